@@ -58,9 +58,11 @@ int backup_copy_file(const char *filename, const std::vector<UINT8> &data);
  * This should be called after the file was written to disk.
  * It will be read back and an md5 will be calculated over it.
  *
- * @param filename  The file that was written (full path)
+ * @param filename      The source file the md5 file belongs to (full path)
+ * @param content_file  The file that holds the new content; it may still be
+ *                      the temporary file that is about to replace filename
  */
-void backup_create_md5_file(const char *filename);
+void backup_create_md5_file(const char *filename, const char *content_file);
 
 
 #endif /* BACKUP_H_INCLUDED */
